@@ -311,6 +311,14 @@ func checkC01(c *Ctx) {
 			}
 			c.Ob("C01.special", pk, funcKey(fn), "zero-branch-present", p.Pos(fn.Pos()), has, funcKey(fn)+": no branch tests the operand against zero: Neg(0) would be q - 0 = q, a non-reduced value")
 		}
+		// a sum of two reduced values lies in [0, 2q): Add and Double look at the modulus before they
+		// return (smallerThanModulus, a comparison with a limb of q, a trial subtraction of q)
+		for _, name := range []string{"Add", "Double"} {
+			if fn := p.Func(pk, "Element", name); fn != nil && len(fn.Blocks) > 0 {
+				c.Ob("C01.special", pk, funcKey(fn), "reduction-test-present", p.Pos(fn.Pos()), hasReductionTest(fn, ql, 0),
+					funcKey(fn)+": nothing in the function compares the sum with the modulus (no smallerThanModulus, no comparison with or trial subtraction of a limb of q): results in [q, 2q) that do not carry out of the top limb are returned unreduced")
+			}
+		}
 		if fn := p.Func(pk, "Element", "Exp"); fn != nil {
 			var inv []ssa.Instruction
 			for _, b := range fn.Blocks {
@@ -548,4 +556,57 @@ func scannedExponentIsParameter(fn *ssa.Function) (bool, string) {
 		return true, "" // no bit scan in this function (delegated): nothing to contradict
 	}
 	return true, ""
+}
+
+// hasReductionTest: see the obligation "reduction-test-present".
+func hasReductionTest(fn *ssa.Function, ql []*big.Int, depth int) bool {
+	isLimb := func(v ssa.Value) bool {
+		cv, ok := stripConv(v).(*ssa.Const)
+		if !ok {
+			return false
+		}
+		bv, ok := constToBig(cv.Value)
+		if !ok {
+			return false
+		}
+		for _, l := range ql {
+			if bv.Sign() != 0 && bv.Cmp(l) == 0 {
+				return true
+			}
+		}
+		return false
+	}
+	for _, b := range fn.Blocks {
+		for _, in := range b.Instrs {
+			switch x := in.(type) {
+			case *ssa.BinOp:
+				switch x.Op {
+				case token.GEQ, token.LSS, token.GTR, token.LEQ:
+					if isLimb(x.X) || isLimb(x.Y) {
+						return true
+					}
+				}
+			case ssa.CallInstruction:
+				com := x.Common()
+				cal := com.StaticCallee()
+				if cal == nil {
+					continue
+				}
+				if cal.Name() == "smallerThanModulus" {
+					return true
+				}
+				if fnPkgPath(cal) == "math/bits" && strings.HasPrefix(cal.Name(), "Sub") {
+					for _, a := range com.Args {
+						if isLimb(a) {
+							return true
+						}
+					}
+				}
+				if depth < 2 && cal.Pkg == fn.Pkg && len(cal.Blocks) > 0 && hasReductionTest(cal, ql, depth+1) {
+					return true
+				}
+			}
+		}
+	}
+	return false
 }
